@@ -950,6 +950,7 @@ impl Prop for C20 {
 			run.cov.evaluations += 1;
 			run.cov.keys.insert(crate::rng::mix(&[run.seed, self.scenarios as u64, 0x72]));
 			run.cov.probe("tier2_scenario_with_node_events");
+			run.cov.fault("node_event_inside_the_concurrent_window");
 			return Some(Step::new(Op::Custom {
 				name: "concurrent".into(),
 				args: json!({"w": w, "tasks": tasks, "seed": run.rng.below(1 << 40), "schedule": []}),
@@ -962,6 +963,9 @@ impl Prop for C20 {
 		if let OpRes::Ok { note, .. } = &probe {
 			let v: Value = serde_json::from_str(note).unwrap_or(Value::Null);
 			run.cov.evaluations += v["interleavings"].as_u64().unwrap_or(0);
+			for _ in 0..v["interleavings"].as_u64().unwrap_or(0) {
+				run.cov.fault("seeded_interleaving_executed");
+			}
 			if v["gap_runs"].as_u64().unwrap_or(0) > 0 {
 				run.cov.probe("task_ran_between_two_lock_sections_of_T0");
 			}
